@@ -1,6 +1,6 @@
 SPECIFICATION Spec
 CONSTANTS Mds0 = 2  MdsUp <- MdsUp3  MinPkts = 4  InitPkts = 5  MaxPkts = 6  MinBps = 2  SlotAdd = 0
-  PrSet <- PrB  SmallOn = FALSE  MaxPn = 4  MaxEv = 1000
+  PrSet <- PrQ  SmallOn = TRUE  MaxPn = 4  MaxEv = 1000
   ClampOn = TRUE  RecFloorOn = TRUE  MinBpsOn = TRUE  PruneOn = TRUE  MdsClampOn = TRUE
 INVARIANT NoViolation
 VIEW View
